@@ -123,6 +123,90 @@ class GenFacts:
             raise AnalysisError(f'{name}: entry {nm} is neither an asm nor an ast class')
         return {text(k): text(v) for k, v in val.items()}
 
+    def loop_record(self):
+        """What the generator records when it enters a loop, by ROLE rather than by field name (the record class may be a
+        dataclass or a NamedTuple, its fields may be renamed, it may store the stack point or only its array count).
+        Returns {'cls', 'fields', 'roles': {role: field}, 'arrays_is_count', 'push', 'pop', 'values'} or raises."""
+        if getattr(self, '_loop_record', None) is not None:
+            return self._loop_record
+        rec = None
+        for p, ev in self.inlined('gen_block'):
+            if p.outcome == 'raise' or not any(e.kind == 'case' and 'LoopBlock' in e.text and not e.origin for e in ev):
+                continue
+            pushes = [e for e in ev if e.kind == 'call' and e.func in ('.append', '.appendleft') and e.recv is not None
+                      and src(e.recv) == 'self.loop_info' and e.args]
+            pops = [e for e in ev if e.kind == 'call' and e.func in ('.pop', '.popleft') and e.recv is not None and src(e.recv) == 'self.loop_info']
+            if len(pushes) != 1 or len(pops) != 1:
+                continue
+            arg = pushes[0].args[0]
+            idx = ev.index(pushes[0])
+            if isinstance(arg, ast.Name):
+                arg = efg.reaching_value(ev, idx, arg.id)
+            if not (isinstance(arg, ast.Call) and isinstance(arg.func, ast.Name)):
+                continue
+            cname = arg.func.id
+            cnode = self.repo.classes(GEN).get(cname)
+            if cnode is None:
+                continue
+            fields = [n.target.id for n in cnode.body if isinstance(n, ast.AnnAssign) and isinstance(n.target, ast.Name)]
+            values = {}
+            for f, a in zip(fields, arg.args):
+                values[f] = efg.expand(ev, idx, a)
+            for k in arg.keywords:
+                if k.arg:
+                    values[k.arg] = efg.expand(ev, idx, k.value)
+            roles = {}
+            for f, v in values.items():
+                if v in ('self.stack', 'self.stack.array_num'):
+                    roles['arrays'] = f
+                elif v == 'self.effective_defeat':
+                    roles['defeat'] = f
+                elif v == 'loop_continue':
+                    roles['continue'] = f
+                elif v == 'loop_break':
+                    roles['break'] = f
+            rec = {'cls': cname, 'fields': fields, 'values': values, 'roles': roles,
+                   'arrays_is_count': values.get(roles.get('arrays')) == 'self.stack.array_num',
+                   'push': pushes[0].func, 'pop': pops[0].func, 'push_index': idx, 'pop_index': ev.index(pops[0]), 'events': ev}
+            break
+        if rec is None:
+            raise AnalysisError('loop record: cannot find the record pushed to self.loop_info in the LoopBlock arm of gen_block')
+        self._loop_record = rec
+        return rec
+
+    def loop_read(self, text, events=None, idx=0):
+        """Role of an expression that reads the innermost loop record in an exit arm ('arrays.count', 'defeat', 'continue',
+        'break'), or None.  The record may be reached as self.loop_info[-1] (append side) / self.loop_info[0] (appendleft
+        side), through a local bound to it, or through a new property that names it."""
+        rec = self.loop_record()
+        if events is not None:
+            text = efg.expand(events, idx, text)
+        try:
+            node = ast.parse(text, mode='eval').body
+        except SyntaxError:
+            return None
+        chain = []
+        while isinstance(node, ast.Attribute):
+            chain.append(node.attr)
+            node = node.value
+        chain.reverse()
+        base = src(node)
+        want_base = 'self.loop_info[-1]' if rec['push'] == '.append' else 'self.loop_info[0]'
+        if base != want_base or not chain:
+            return None
+        inv = {f: r for r, f in rec['roles'].items()}
+        role = inv.get(chain[0])
+        if role is None:
+            return None
+        rest = chain[1:]
+        if role == 'arrays':
+            if rec['arrays_is_count'] and not rest:
+                return 'arrays.count'
+            if not rec['arrays_is_count'] and rest == ['array_num']:
+                return 'arrays.count'
+            return None
+        return role if not rest else None
+
     def layout(self, variable_defeat=True):
         """The lines CodeGen.gen_lines writes for a small synthetic compilation state (two entry arguments, two state
         and two const data items, two strings, two generated functions), obtained by interpreting gen_lines - the
